@@ -16,6 +16,47 @@ CHECKS = {
             "Generated search: random 1..4-warrior battles are stepped next to a reference MARS scheduler; return values, executed (warrior,pc) lists, queues, alive flags, counters and the whole core are compared after every cycle, and Run() on a fresh simulator must reach the same final state.",
             "Trusts harness/ref (scheduler written from the property statement and the ICWS'94 draft). Cores mostly 3..60.",
             "DESIGN.md section 4, C02"),
+
+    "C03": ("property-based testing against a by-construction meaning function, with independent surface renderings (rapid)",
+            "Generated search: abstract programs (labels, EQUs, constants, defaults, ORG/END, metadata; both dialects) are rendered 2-3 ways; CompileWarrior of each rendering must equal the meaning computed without gmars.",
+            "Trusts harness/rc MeaningOf (textual EQU substitution, own expression evaluator, ICWS'94 default-modifier table with NOP->B, '88 table). Results outside int32 are discarded (C07 owns that boundary).",
+            "DESIGN.md section 4, C03"),
+    "C05": ("property-based robustness testing in an isolated, killable worker process with goroutine-leak inspection (rapid); native fuzzing in the thorough tier",
+            "Generated search over valid, mutated, soup and adversarial inputs; every case must return within a deadline, not panic or kill the process, return error xor warrior, and leave no gmars goroutine behind; hangs are observable and shrinkable because the worker is a separate process.",
+            "Time bound decided as a 5 s deadline for inputs whose own expansion estimate is <= 2*10^4 tokens (larger inputs discarded); polynomial slowness below the deadline is not detected.",
+            "DESIGN.md section 4, C05"),
+    "C06": ("property-based testing of a validity predicate over accepted outputs (rapid); native fuzzing in the thorough tier",
+            "Generated search: valid, mutated, soup, boundary and cross-dialect inputs; whenever CompileWarrior succeeds the output must satisfy the structural predicate and, under ICWS'88, an independently written table of legal instructions.",
+            "Only accepted inputs are judged; acceptance rates per input class are reported in the evidence.",
+            "DESIGN.md section 4, C06"),
+    "C07": ("property-based differential testing of expressions against an independent big-integer evaluator (rapid)",
+            "Generated search: expressions with sign runs, redundant parentheses, EQUs and predefined constants observed as operands (core size 2^34: value recoverable exactly), ORG arguments, FOR counts and ;assert conditions; compared with an own precedence-climbing evaluator over math/big.",
+            "Trusts harness/rc Eval; final values outside int32 are discarded.",
+            "DESIGN.md section 4, C07"),
+    "C08": ("metamorphic + model-based property testing: FOR program vs abstract unrolling vs meaning (rapid)",
+            "Generated search over program trees with sequential and nested FOR blocks, EQU counts, zero counts, counters in arithmetic and block labels used inside and outside; CompileWarrior(FOR text) == CompileWarrior(unrolled text) == meaning(unrolled).",
+            "Programs whose unrolling is ill-defined are kept out of the generator (listed in DESIGN.md).",
+            "DESIGN.md section 4, C08"),
+    "C09": ("round-trip property testing: printer -> ParseLoadFile / CompileWarrior (rapid)",
+            "Generated warriors are printed in the canonical load-file layout with layout-only perturbations; both readers must reproduce code and entry point.",
+            "Trusts the harness printer (harness/rc PrintLoadFile).",
+            "DESIGN.md section 4, C09"),
+    "C10": ("property-based fault injection on load files with a validity predicate and an independent line-count oracle (rapid); native fuzzing in the thorough tier",
+            "Generated search: canonical load files with 1..5 corruptions; ParseLoadFile must not panic and must fail or return a well-formed warrior with exactly as many instructions as an independent line splitter counts.",
+            "The no-silent-skip oracle uses the harness's own notion of blank/comment/directive lines.",
+            "DESIGN.md section 4, C10"),
+    "C14": ("property-based concurrency testing under the Go race detector, repeatability and copy-isolation relations (rapid)",
+            "Generated job sets run sequentially and then on 1/2/8/32 goroutines in a -race build: results must be equal and the detector silent; caller-side mutation after AddWarrior must not show through.",
+            "Schedules are those the Go scheduler produces; the race detector only sees accesses that execute.",
+            "DESIGN.md section 4, C14"),
+    "C16": ("round-trip property testing: LoadCode listing read back by an independent listing reader (rapid)",
+            "Generated warriors from the loader/assembler of the same dialect; Warrior.LoadCode() parsed with the pMARS listing conventions must denote the same instructions (fields modulo M) and entry point.",
+            "Trusts harness/rc ReadListing.",
+            "DESIGN.md section 4, C16"),
+    "C17": ("property-based differential testing of the built CLI against the reference MARS (rapid)",
+            "Generated warrior files and flag vectors; stdout/exit status of a freshly built cmd/gmars compared with tallies computed by the reference battle under the documented configuration (README preset table); counting invariants for random placement.",
+            "Expected preset values come from the README table with limits equal to the core size.",
+            "DESIGN.md section 4, C17"),
     "C04": ("property-based invariant checking over fuzzed configurations and hostile battles (rapid)",
             "Generated search over all eight configuration fields (0..2^20) and, on accepted configurations, hostile self-modifying battles with the listed invariants checked after every cycle and panics/hangs converted into failures.",
             "Per-cycle full-core scan only for cores <= 256 cells (larger: reported addresses + final full scan); at most 400 stepped cycles per battle before the final Run().",
